@@ -296,11 +296,22 @@ fn reparse(kind: &str, input: &[TokenTree], out: &[TokenTree]) -> String {
 static SPAN_NOTES: std::sync::Mutex<Vec<String>> = std::sync::Mutex::new(Vec::new());
 
 fn body_idents(ts: TS, out: &mut Vec<proc_macro2::Ident>) {
+    // (the identifier of a lifetime `'a` is not a reference to a parameter `a`)
+    let mut after_tick = false;
     for t in ts {
         match t {
-            TokenTree::Group(g) => body_idents(g.stream(), out),
-            TokenTree::Ident(i) => out.push(i),
-            _ => {}
+            TokenTree::Group(g) => {
+                body_idents(g.stream(), out);
+                after_tick = false;
+            }
+            TokenTree::Ident(i) => {
+                if !after_tick {
+                    out.push(i);
+                }
+                after_tick = false;
+            }
+            TokenTree::Punct(p) => after_tick = p.as_char() == '\'' && p.spacing() == proc_macro2::Spacing::Joint,
+            _ => after_tick = false,
         }
     }
 }
@@ -312,6 +323,9 @@ fn span_mismatches_in(region: TS, notes: &mut Vec<String>) {
         Err(_) => return,
     };
     for item in file.items {
+        if let syn::Item::Trait(tr) = &item {
+            unmock_span_mismatches(tr, notes);
+        }
         let imp = match item {
             syn::Item::Impl(i) if i.trait_.is_some() => i,
             _ => continue,
@@ -346,6 +360,67 @@ fn span_mismatches_in(region: TS, notes: &mut Vec<String>) {
                         ));
                     }
                 }
+            }
+        }
+    }
+}
+
+/// `unmock_with = [f(a, b), g, _]` inside the unimock derivation of a generated trait: entry i belongs to method i;
+/// the identifiers of an explicit argument list refer to that method's parameters (unimock pastes them into a
+/// function with those parameters) and have to carry their spans (seed R10C11).  Notes are prefixed `unmock:`.
+fn unmock_span_mismatches(tr: &syn::ItemTrait, notes: &mut Vec<String>) {
+    fn find_unmock(ts: TS) -> Option<TS> {
+        let v = trees(ts);
+        for k in 0..v.len() {
+            if is_ident(&v[k], "unmock_with") && k + 2 < v.len() {
+                if let TokenTree::Group(g) = &v[k + 2] {
+                    if g.delimiter() == Delimiter::Bracket {
+                        return Some(g.stream());
+                    }
+                }
+            }
+            if let TokenTree::Group(g) = &v[k] {
+                if let Some(r) = find_unmock(g.stream()) {
+                    return Some(r);
+                }
+            }
+        }
+        None
+    }
+    use quote::ToTokens;
+    let list = match tr.attrs.iter().find_map(|a| find_unmock(a.meta.to_token_stream())) {
+        Some(l) => l,
+        None => return,
+    };
+    // split at top-level commas
+    let mut entries: Vec<Vec<TokenTree>> = vec![vec![]];
+    for t in list {
+        match &t {
+            TokenTree::Punct(p) if p.as_char() == ',' => entries.push(vec![]),
+            _ => entries.last_mut().unwrap().push(t),
+        }
+    }
+    let methods: Vec<&syn::TraitItemFn> = tr.items.iter().filter_map(|m| match m { syn::TraitItem::Fn(f) => Some(f), _ => None }).collect();
+    for (entry, m) in entries.iter().zip(methods.iter()) {
+        let args = match entry.last() {
+            Some(TokenTree::Group(g)) if g.delimiter() == Delimiter::Parenthesis && entry.len() >= 2 => g.stream(),
+            _ => continue,
+        };
+        let mut decls: Vec<(String, proc_macro2::LineColumn)> = vec![];
+        for a in m.sig.inputs.iter() {
+            if let syn::FnArg::Typed(t) = a {
+                if let syn::Pat::Ident(pi) = &*t.pat {
+                    decls.push((pi.ident.to_string(), pi.ident.span().start()));
+                }
+            }
+        }
+        let mut used = vec![];
+        body_idents(args, &mut used);
+        for u in used {
+            let name = u.to_string();
+            if decls.iter().any(|(n, _)| *n == name) && !decls.iter().any(|(n, a)| *n == name && *a == u.span().start()) {
+                let here = u.span().start();
+                notes.push(format!("unmock:{}:{} forwarded@{}:{}", m.sig.ident, name, here.line, here.column));
             }
         }
     }
